@@ -212,6 +212,32 @@ def check_const_replaced(ctx, case, stratum="const-replaced"):
     return True
 
 
+def check_int_edges(ctx):
+    """integers at and just beyond the edges of every width: what is serialized inhabits int<w> -- or the value is
+    refused; nothing in between"""
+    from hugr.std.int import IntVal
+    from vf.oracles import wire
+
+    for w in range(7):
+        n = 1 << w
+        for v in (0, (1 << n) - 1, 1 << n, (1 << n) + 1, -(1 << (n - 1)), -(1 << (n - 1)) - 1, -1, 1 << 64, -(1 << 63) - 1):
+            ctx.count("monitor:int-edge")
+            case = {"int": [v, w]}
+            try:
+                vj = dump(IntVal(v, w))
+            except Exception:  # noqa: BLE001
+                ctx.count("observed:int-refused")
+                continue
+            probs: list = []
+            wire.inhabits(vj, probs)
+            if wire.type_of_value(vj) != wire.canon({"t": "Opaque", "extension": "arithmetic.int.types", "id": "int",
+                                                      "args": [{"tya": "BoundedNat", "n": w}], "bound": "C"}):
+                probs.append("reported type is not int<w>")
+            for pr in probs[:1]:
+                ctx.disc(None, "does-not-inhabit", ["IntVal", v, w], "an unsigned value of the width, or a refusal", pr,
+                         stratum="int-edge", case=case)
+
+
 def check_func_root(ctx, case):
     """A function value whose body is rooted at a TailLoop (the dataflow parent whose outer signature differs from
     its body's): "a function-valued constant has the signature of its body"."""
@@ -330,6 +356,8 @@ def run(ctx):
 
     if ctx.shard == 0:
         selftest(ctx)
+        ctx.guard("int-edge", None, check_int_edges, ctx)
+        ctx.case("int-edge", "edges", True)
     from vf.gen.prog import gen_program
 
     for i in ctx.mine(ctx.n(200, 20000)):
@@ -386,6 +414,8 @@ def replay(ctx, rec):
         check_program_loads(ctx, rec["case"])
     elif rec.get("stratum") == "func-root":
         check_func_root(ctx, rec["case"])
+    elif rec.get("stratum") == "int-edge":
+        check_int_edges(ctx)
     elif rec.get("stratum") == "const-replaced":
         check_const_replaced(ctx, rec["case"])
     else:
